@@ -34,9 +34,11 @@ class Window:
             # put anything to take a slot in the queue
             await self.queue.put(1)
             job._running = True                         # pylint: disable=w0212
-            value = await job.co_run()
-            # release slot in the queue
-            await self.queue.get()
+            try:
+                value = await job.co_run()
+            finally:
+                # release slot in the queue, whatever the outcome
+                self.queue.get_nowait()
             # return the right thing
             return value
         return wrapped
